@@ -70,3 +70,11 @@ Theorem C02_validate_assertion_exact :
     (negb (ck_addr ck) || addr_ok_a cfg a) && (negb (ck_reqid ck) || reqid_ok_a cfg ids a).
 Proof. exact validate_assertion_char. Qed.
 Print Assumptions C02_validate_assertion_exact.
+
+(* The monitor the correspondence check evaluates on the implementation's answers is the
+   boolean form of the statements above: it is true of the model itself, so it can only fire on
+   a case where the implementation departs from the model (entry point ParseXMLResponse). *)
+Theorem C02_monitor_holds_of_model :
+  forall c, pc_entry c = 0 -> spcase_agree c = true -> c02_spec c = true.
+Proof. exact c02_monitor. Qed.
+Print Assumptions C02_monitor_holds_of_model.
